@@ -49,8 +49,9 @@ fn options_push_back(options: &mut BTreeMap<u16, VecDeque<Vec<u8>>>, n: u16, v: 
             // and returns exactly the fields the grammar defines
             r is Ok ==> parse_msg(buf@) is Some && pkt_matches(r->Ok_0, parse_msg(buf@)->0),
             // C01 needs the encoder's own messages parsed back whatever their version / code (a 0.00 message with a token or
-            // options included); the encoder never ends a message with a bare payload marker, so that shape stays optional
-            parse_msg(buf@) is Some && !lone_marker(buf@) ==> r is Ok, // @props C01
+            // options included); the encoder never ends a message with a bare payload marker and never writes a payload
+            // into a 0.00 message, so those shapes stay optional
+            parse_msg(buf@) is Some && enc_shape(buf@) ==> r is Ok, // @props C01
             dec_post(buf@, r), // @props C01''', props=PROPS)
     u.after(FROM_BYTES, r'let mut idx = options_start;',
             '                let ghost mut acc: Seq<(u16, Seq<u8>)> = Seq::empty();')
